@@ -206,8 +206,15 @@ def rule_closed_forms(repo: Repo, rep: Report) -> None:
 
     # --- trace / conjugates: m-1 squarings
     conj_done = False
+    trace_done = False
     for qual, what in (("FiniteBifieldElement.trace", "trace = sum of a^(2^i), i<m"), ("FiniteBifieldElement.conjugates", "conjugates a^(2^i), i<m")):
         fi = repo.func(ALG, qual)
+        if qual.endswith("trace"):
+            tst, tdetail = trace_tabulated(fi)
+            if tst in (OK, VIOLATION):
+                rep.add("KERNEL", fi, "FiniteBifieldElement.trace tabulated over GF(4), GF(8), GF(16), GF(64)", tst, tdetail, node=fi.node)
+                trace_done = True
+                continue
         loops = [s for s in stmts_of(fi.body) if isinstance(s, ast.For)]
         if qual.endswith("conjugates") and not (len(loops) == 1 and classify(loops[0].iter, ["range(1, self.field.m)", "range(self.field.m - 1)"])[0] == OK and any(match(x, "_E = _E * _E") is not None for x in loops[0].body if isinstance(x, ast.Assign))):
             cst, cdetail = conjugates_tabulated(repo, fi)
@@ -230,11 +237,11 @@ def rule_closed_forms(repo: Repo, rep: Report) -> None:
         else:
             rep.undecided("CLOSED-FORM", fi, f"{what}: loop body", "no squaring step recognised")
     fi = repo.func(ALG, "FiniteBifieldElement.trace")
-    acc = [x for x in stmts_of(fi.body) if isinstance(x, ast.AugAssign)]
+    acc = [] if trace_done else [x for x in stmts_of(fi.body) if isinstance(x, ast.AugAssign)]
     for x in acc:
         s, d, _ = classify(x, ["result = result ^ element.value"])
         rep.add("CLOSED-FORM", fi, f"trace accumulation: {unparse(x)}", s, d, node=x)
-    for r in returns_of(fi.node):
+    for r in ([] if trace_done else returns_of(fi.node)):
         s, d, _ = classify(r.value, ["result & 1", "result"], int_context=True)
         rep.add("CLOSED-FORM", fi, f"trace value: {unparse(r.value)}", s, d, node=r)
     # conjugates: stop only on returning to the start, append otherwise
@@ -553,6 +560,39 @@ def conjugates_tabulated(repo: Repo, fi: FuncInfo):
                 return VIOLATION, f"conjugates of the element {v:#b} of GF(2^{m}) are returned as {[x.value for x in got]}; the orbit under squaring is {want} (the minimal polynomial built from them is not the least-degree one)"
             n += 1
     return OK, f"equals the orbit under squaring for all {n} elements (zero included)"
+
+
+def trace_tabulated(fi: FuncInfo):
+    """FiniteBifieldElement.trace run for EVERY element (zero included) of GF(4), GF(8), GF(16), GF(64) with the element
+    modelled by gf2.FieldElem (product, conjugates() are the model's own): the result must be the low bit of
+    a + a^2 + ... + a^(2^(m-1)) - all m terms, also where the orbit of the element under squaring is shorter than m."""
+    from ..frag import FragRaise, FragReturn, run_fragment
+
+    n = 0
+    for m, mod in ((2, 0b111), (3, 0b1011), (4, 0b10011), (6, 0b1000011)):
+        field = gf2.FieldModel(m, mod)
+        for v in range(1 << m):
+            try:
+                run_fragment(fi.body, {"self": gf2.FieldElem(field, v)}, {}, max_steps=20000)
+                return UNDECIDED, "no value returned"
+            except FragReturn as r:
+                got = r.value
+            except FragRaise:
+                return VIOLATION, f"trace() of the element {v:#b} of GF(2^{m}) raises"
+            except (Unfoldable, TypeError, IndexError, ZeroDivisionError, ArithmeticError) as exc:
+                return UNDECIDED, f"not evaluable ({exc})"
+            acc, e = 0, v
+            for _ in range(m):
+                acc ^= e
+                e = gf2.pmulmod(e, e, mod)
+            if isinstance(got, gf2.FieldElem):
+                got = got.value
+            if isinstance(got, bool) or not isinstance(got, int):
+                return UNDECIDED, f"value {got!r} is not an integer"
+            if got != acc & 1:
+                return VIOLATION, f"GF(2^{m}): trace of the element {v:#b} is returned as {got}; a + a^2 + ... + a^(2^(m-1)) (all {m} terms) is {acc & 1}"
+            n += 1
+    return OK, f"equals a + a^2 + ... + a^(2^(m-1)) for all {n} elements of GF(4), GF(8), GF(16), GF(64) (zero included)"
 
 
 def minpoly_tabulated(fi: FuncInfo):
